@@ -579,6 +579,10 @@ def units(tier):
                         continue
                     if nd == 4 and lt > 2:
                         continue
+                    # the deepest shapes (three blocks / four legs) cost minutes of solver time each: thorough runs them for U(1) only,
+                    # three blocks up to two legs and four legs up to one block; every symmetry gets the shapes of the quick tier
+                    if (lt == 3 or nd == 4) and not (sym == 'U1' and ((lt == 3 and nd <= 2) or (nd == 4 and lt <= 1))):
+                        continue
                     ps = perms(nd) if (all_trans and nd <= 3) else [tuple(range(nd)), tuple(range(nd - 1, -1, -1))]
                     for p in dict.fromkeys(ps):
                         yield sym, nd, lt, p
